@@ -19,6 +19,7 @@ mod paths;
 mod pipeline;
 mod project;
 mod render;
+mod srcwriter;
 mod stages;
 mod tsread;
 mod twin;
@@ -54,6 +55,7 @@ fn main() {
         "render" => parse::run_render(rest),
         "roundtrip" => printer::run_roundtrip(rest),
         "server" => printer::run_server(rest),
+        "srcwriter" => srcwriter::run(rest),
         "stages" => stages::run(rest),
         "stages-child" => stages::run_child(rest),
         "opfile-child" => opfile::run_child(rest),
